@@ -132,6 +132,36 @@ def impl_select(ranges, qs, derivs=True):
     return evaluate_all(observe, qs, "python-api")
 
 
+def reassigned_ranges(run, cases):
+    """one object, evaluated, given another list of ranges through its public `range_defns` property, evaluated again AT THE SAME r (before any other r): value,
+    deriv and deriv2 must follow the ranges the object holds now (the selection rule has no memory)"""
+    rng = run.rng
+    pool = [c for c in cases if not has_dup(c)]
+    nbad = 0
+    for _ in range(run.n(120, 1500)):
+        c1, c2 = rng.choice(pool), rng.choice(pool + [[]])
+        qs = queries([si for (_, si, _) in list(c1) + list(c2)])
+        f = create_Multi_Range_Potential_Form(*[Multi_Range_Defn(">=" if inc else ">", LATTICE[si], T8(fid, True)) for (inc, si, fid) in c1])
+        run.case(key=("reassign", str(c1), str(c2)), kind="python-api/reassigned-ranges")
+        run.traces += 1
+        for q in rng.sample(qs, min(4, len(qs))):
+            for r in real_rs(q):
+                f.range_defns = [Multi_Range_Defn(">=" if inc else ">", LATTICE[si], T8(fid, True)) for (inc, si, fid) in c1]
+                before = f(r), f.deriv(r), f.deriv2(r)
+                f.range_defns = [Multi_Range_Defn(">=" if inc else ">", LATTICE[si], T8(fid, True)) for (inc, si, fid) in c2]
+                v, d1, d2 = f(r), f.deriv(r), f.deriv2(r)
+                got = [None if v == 0.0 else int(v), None if d1 == 0.0 else int(d1) - 100, None if d2 == 0.0 else int(d2) - 200]
+                spec = spec_select(c2, q)
+                if spec != "ambiguous" and got != [spec, spec, spec]:
+                    nbad += 1
+                    if nbad <= 2:
+                        run.fail("range-selection", "after the ranges were replaced through .range_defns, at r=%r (evaluated just before with the old ranges) value/deriv/deriv2 come from ranges %s, "
+                                 "the selection rule on the ranges the object now holds gives %s" % (r, got, spec),
+                                 dict(case=dict(first_ranges=[dict(marker=">=" if i else ">", start=LATTICE[s_], fid=f_) for (i, s_, f_) in c1],
+                                                second_ranges=[dict(marker=">=" if i else ">", start=LATTICE[s_], fid=f_) for (i, s_, f_) in c2], r=r, route="python-api")))
+                    break
+
+
 def mixed_derivs(run, cases):
     """Ranges of which some offer analytic derivatives and some do not (seed C08_6): at every query point - in particular exactly ON an inclusive start and one
     ulp either side of every start - `deriv`/`deriv2` must be those of the SELECTED range: 100+fid / 200+fid for a range with analytic derivatives, and for a
@@ -274,6 +304,7 @@ def check(run):
                     run.fail("range-order-dependence", "result depends on the order in which the ranges were listed (no two ranges share both start and marker)", dict(case=desc, differs_at_r=diffq))
     run.extra["order_dependent_duplicate_cases"] = ndup
     mixed_derivs(run, [c for c in cases if len(c) >= 2])
+    reassigned_ranges(run, cases)
     # potable route
     pot_cases = [c for c in cases if all(LATTICE[s] != float("-inf") for (_, s, _) in c)]
     rng.shuffle(pot_cases)
